@@ -25,6 +25,39 @@ CLAIMS = {
    technique='contract-based deductive verification: AST symbolic execution + z3 VCs (smt), ground lemmas',
    design='4/C05'),
 }
+CLAIMS.update({
+ 'C02': dict(
+   category='proof',
+   text='Deductive, exhaustive over the finite configuration space with symbolic data: for each of the 44 versions the real '
+        'make_matrix/add_finder_patterns/add_alignment_patterns are executed from source and every module is compared with the ISO '
+        'function-pattern map; add_format_info for all 1312+32 (version, level, mask) and add_version_info for all versions on a matrix '
+        'of opaque cells: both copies bit by bit, dark module, frame (no other cell changes); BCH/Golay tables recomputed by polynomial '
+        'division; metadata properties of QRCode for all configurations; _encode glue (order of stages, format info after masking). '
+        'Control flow of these functions depends only on the configuration, so one run per configuration covers all data.',
+   note='Trusted: pyvc interpreter; spec/layout.py transcription of ISO 6.3/7.9/7.10/Annex E (cross-checked by module-count identity). '
+        'Cells written by other stages are opaque tokens.',
+   technique='contract-based deductive verification: concrete-control / symbolic-data execution of the real functions (cc-sym), ground table lemmas, glue VCs by z3',
+   design='4/C02'),
+ 'C03': dict(
+   category='proof',
+   text='Deductive: make_blocks is executed for all 168 (version, level) layouts with ALL data bytes symbolic as GF(256)-linear forms; '
+        'every block data++ec has all ec syndromes identically zero (valid RS codeword for every content), data blocks are the Table 9 slices; '
+        'field and generator tables proved against GF(256) built from x^8+x^4+x^3+x^2+1; interleaving/half codeword/remainder bits of '
+        'make_final_message for all 168 layouts and placement order of add_codewords for all 44 versions with symbolic codewords.',
+   note='Trusted: pyvc (gf-lin branch merge rule), spec/gf.py, ISO Table 9 transcription; RS minimum-distance theorem cited, not re-proved '
+        '(correctability follows from zero syndromes); decoder behaviour of third-party readers not modelled.',
+   technique='contract-based deductive verification: GF(256) linear-form symbolic execution (gf-lin), cc-sym, ground table lemmas',
+   design='4/C03'),
+ 'C13': dict(
+   category='proof',
+   text='Deductive: write_terminator, write_padding_bits, write_pad_codewords verified for each of the 168 (version, level) with a symbolic '
+        'stream length 0..capacity (every residue mod 8, every distance to capacity): every bit after the segments equals the ISO 7.4.9/7.4.10 '
+        'stream; pad loop cut at a loop invariant (quantifier-free by explicit instantiation); remainder bits; _encode glue (order, len(buff) arguments). '
+        'One known finding (extra zero codeword on aligned streams) is checked per region as ISO-or-pinned-deviation.',
+   note='Trusted: pyvc + z3 (LIA with div/mod, arrays); spec/iso.py stream specification; caller obligation stream length <= capacity (C04).',
+   technique='contract-based deductive verification: AST symbolic execution + loop invariant + z3 VCs (smt), cc-sym for remainder bits',
+   design='4/C13'),
+})
 NOT_YET = {
 }
 ALL = ['C%02d' % i for i in range(1, 17)]
